@@ -67,7 +67,7 @@ var props = []Prop{
 		ID: "C03",
 		Harnesses: []H{{Pkg: "ecs", Fn: "HC03_Query"}, {Pkg: "ecs", Fn: "HC03_BatchQuery"}, {Pkg: "ecs", Fn: "HC03_Query", Tags: "tiny", Tier: "thorough"}, {Pkg: "filter", Fn: "HC03_Logic", W: 4}, {Pkg: "filter", Fn: "HC03_Logic", W: 4, Tags: "tiny"}},
 		Conform: stdConform,
-		Bounds:  "10 scripted prefixes (thorough: + one symbolic legal operation) x 8 filter kinds (All, mask, without, exclusive, relation filters with every issued handle / zero as target), plain and registered; per query: full iteration against the model, Count, EntityAt(i) for a fully symbolic 64-bit i, j Next calls followed by Step(s) for a fully symbolic 64-bit s; batch-result queries of ExchangeQ / SetRelationQ / NewBatchQ with all legal arguments: Count, EntityAt for every index, iteration, symbolic EntityAt / Step within the int32 range; 3 configurations (thorough 6); HC03_Logic (package filter): 10 logic-filter expressions over And/Or/XOr/Not/Any/NoneOf/AnyNot, plain and registered (with tables created after registration), on a world holding every subset of 3 components, optional removal: visited set, Count and lock release against the boolean definition",
+		Bounds:  "10 scripted prefixes (thorough: + one reduced-argument operation) x 8 filter kinds (All, mask, without, exclusive, relation filters with every issued handle / zero as target), plain and registered; per query: full iteration against the model, Count, EntityAt(i) for a fully symbolic 64-bit i, j Next calls followed by Step(s) for a fully symbolic 64-bit s; batch-result queries of ExchangeQ / SetRelationQ / NewBatchQ with all legal arguments: Count, EntityAt for every index, iteration, symbolic EntityAt / Step within the int32 range; 3 configurations (thorough 6); HC03_Logic (package filter): 10 logic-filter expressions over And/Or/XOr/Not/Any/NoneOf/AnyNot, plain and registered (with tables created after registration), on a world holding every subset of 3 components, optional removal: visited set, Count and lock release against the boolean definition",
 		Outside: "logic filters beyond the 10 expressions of HC03_Logic at world level (all expressions up to nesting 2-3 are decided at the Matches level in C04; queries only call Matches); more than 10 entities; relation filters nested inside other filters (documented as unsupported)",
 	},
 	{
@@ -104,7 +104,7 @@ var props = []Prop{
 		ID: "C10",
 		Harnesses: []H{{Pkg: "ecs", Fn: "HC10_Illegal"}, {Pkg: "ecs", Fn: "HC10_Illegal", Tags: "tiny", Tier: "thorough"}},
 		Conform: stdConform,
-		Bounds:  "6 prefixes x 1 (thorough: 2) failed call(s) out of 9 illegal classes with all arguments symbolic and constrained only to be illegal per the documentation: Add/Remove/Exchange (dead or recycled entity, present/absent component, second relation), Assign (incl. no components), every accessor/mutator on a removed entity, Set / write through Get on a missing component, creation with two relations / target without relation / relation not among the components / non-relation named as relation (ids and values), duplicate ids (NewEntity, NewEntityWith, Add, Remove, Exchange), non-positive batch counts (fully symbolic count <= 0, NewBatch and NewBatchQ), Relations.Set and Relations.Exchange / Builder.Add with target (dead entity, wrong component, dead target, no effect); asserted: panic, then all observables = model, structural invariant, pool/index/row digest unchanged, world unlocked, and two further legal operations behave per the model; 2 configurations (thorough 6). Out-of-range query indices and non-positive steps are decided in C03, filter double (un)registration in C07, resources in C20, type limit in C16, LoadEntities in C17.",
+		Bounds:  "6 prefixes x 1 failed call (thorough: followed by a second, fixed failed call) out of 9 illegal classes with all arguments symbolic and constrained only to be illegal per the documentation: Add/Remove/Exchange (dead or recycled entity, present/absent component, second relation), Assign (incl. no components), every accessor/mutator on a removed entity, Set / write through Get on a missing component, creation with two relations / target without relation / relation not among the components / non-relation named as relation (ids and values), duplicate ids (NewEntity, NewEntityWith, Add, Remove, Exchange), non-positive batch counts (fully symbolic count <= 0, NewBatch and NewBatchQ), Relations.Set and Relations.Exchange / Builder.Add with target (dead entity, wrong component, dead target, no effect); asserted: panic, then all observables = model, structural invariant, pool/index/row digest unchanged, world unlocked, and two further legal operations behave per the model; 2 configurations (thorough 6). Out-of-range query indices and non-positive steps are decided in C03, filter double (un)registration in C07, resources in C20, type limit in C16, LoadEntities in C17.",
 		Outside: "empty graph nodes / tables left behind by a failed graph walk (visible only through Stats().Nodes, not an observable named by the property); sequences of more than two failed calls",
 	},
 	{
@@ -132,7 +132,7 @@ var props = []Prop{
 		ID: "C20",
 		Harnesses: []H{{Pkg: "generic", Fn: "HC20_Resources"}, {Pkg: "generic", Fn: "HC20_Resources", Tags: "tiny", Tier: "thorough"}},
 		Conform: stdConform,
-		Bounds:  "4 resource types placed at IDs 0, 1 or 17, 63 or 64 (31/32 in tiny), and the last ID (255 / 63) by filler registrations that cross every 16-ID chunk and 64-bit word; symbolic sequences of 2 (thorough 4) operations out of: Add (World.Resources, generic.Resource, ecs.AddResource), Remove (World.Resources, generic.Resource), registration of a further type, entity creation + component registration, entity removal, lock/unlock by a query, Reset; after every step Has/Get of every registered type through all three APIs against the model (exact pointer identity, nil when absent), panics exactly for duplicate Add / missing Remove, no component ids consumed",
+		Bounds:  "4 resource types placed at IDs 0, 1 or 17, 63 or 64 (31/32 in tiny), and the last ID (255 / 63) by filler registrations that cross every 16-ID chunk and 64-bit word; symbolic sequences of 2 (thorough 3) operations out of: Add (World.Resources, generic.Resource, ecs.AddResource), Remove (World.Resources, generic.Resource), registration of a further type, entity creation + component registration, entity removal, lock/unlock by a query, Reset; after every step Has/Get of every registered type through all three APIs against the model (exact pointer identity, nil when absent), panics exactly for duplicate Add / missing Remove, no component ids consumed",
 		Outside: "more than 4 distinct resource types holding values at once (all 256 ids are registered by the fillers); sequences longer than 4 operations",
 	},
 	{
@@ -168,7 +168,7 @@ var props = []Prop{
 		ID: "C14",
 		Harnesses: []H{{Pkg: "ecs", Fn: "HC14_Pointers"}, {Pkg: "ecs", Fn: "HC14_Pointers", Tags: "tiny", Tier: "thorough"}},
 		Conform: stdConform,
-		Bounds:  "REDUCED SCOPE: necessary storage-discipline conditions, not GC schedules. A world with pointer-carrying components in tables [P], [A,P] and a relation table, then 2 (thorough 3) symbolic operations out of 13: creation (growth), write through Get, Set, Assign, move by add/remove of other components, removal of the component, removal of entities (swap-remove), batch move, relation move (single and batch, the relation component carries data), Reset, batch removal, children with pointer components; decided in the engine for every path: (N1/N2) every pointer-carrying value written by the library - by typed stores, raw byte copies, reflect.Copy - lands in memory whose allocation type has a pointer word at that offset (what the collector scans), no raw copy cuts a pointer, (N3) storage beyond a table's length and all storage of retired / reset tables is zero, components keep the exact pointer last written and the referent's value; 2 configurations (thorough 6). Native replay of a counterexample additionally sets finalizers and forces collections: referents of live components must survive, all others must be collected.",
+		Bounds:  "REDUCED SCOPE: necessary storage-discipline conditions, not GC schedules. A world with pointer-carrying components in tables [P], [A,P] and a relation table, then 2 symbolic operations out of 13: creation (growth), write through Get, Set, Assign, move by add/remove of other components, removal of the component, removal of entities (swap-remove), batch move, relation move (single and batch, the relation component carries data), Reset, batch removal, children with pointer components; decided in the engine for every path: (N1/N2) every pointer-carrying value written by the library - by typed stores, raw byte copies, reflect.Copy - lands in memory whose allocation type has a pointer word at that offset (what the collector scans), no raw copy cuts a pointer, (N3) storage beyond a table's length and all storage of retired / reset tables is zero, components keep the exact pointer last written and the referent's value; 2 configurations (thorough 6). Native replay of a counterexample additionally sets finalizers and forces collections: referents of live components must survive, all others must be collected.",
 		Outside: "write barriers, concurrent marking, escape analysis and GC timing (properties of the Go runtime and compiler, not present at go/ssa level); transient states inside one operation (N4 of the design: ordering of zeroing and copying between safepoints) are not checked",
 	},
 }
